@@ -514,7 +514,10 @@ public:
                        const sign_domain_t &inv) override {
     crab::CrabStats::count(domain_name() + ".count.backward_assign");
     crab::ScopedCrabStats __st__(domain_name() + ".backward_assign");
-    // TODO
+    // No inverse operations are implemented: x can be anything before
+    // the assignment.
+    this->operator-=(x);
+    *this = *this & inv;
   }
 
   void backward_apply(crab::domains::arith_operation_t op, const variable_t &x,
@@ -522,7 +525,10 @@ public:
                       const sign_domain_t &inv) override {
     crab::CrabStats::count(domain_name() + ".count.backward_apply");
     crab::ScopedCrabStats __st__(domain_name() + ".backward_apply");
-    // TODO
+    // No inverse operations are implemented: x can be anything before
+    // the assignment.
+    this->operator-=(x);
+    *this = *this & inv;
   }
 
   void backward_apply(crab::domains::arith_operation_t op, const variable_t &x,
@@ -530,7 +536,10 @@ public:
                       const sign_domain_t &inv) override {
     crab::CrabStats::count(domain_name() + ".count.backward_apply");
     crab::ScopedCrabStats __st__(domain_name() + ".backward_apply");
-    // TODO
+    // No inverse operations are implemented: x can be anything before
+    // the assignment.
+    this->operator-=(x);
+    *this = *this & inv;
   }
 
   // cast operations
